@@ -192,7 +192,12 @@ pub fn weights(p: Profile) -> [u32; N_KINDS] {
             w[K_CHECKPOINT] = 15;
             w[K_COMPACT] = 12;
         }
-        Profile::Lockstep => {}
+        Profile::Lockstep => {
+            // the window premise: a fixed configuration and no requested transfers
+            w[K_CONF] = 0;
+            w[K_TRANSFER] = 0;
+            w[K_CAMPAIGN] = 6;
+        }
         Profile::Singleton => {
             w[K_CRASH] = 25;
             w[K_CRASHMID] = 10;
@@ -379,8 +384,14 @@ const BOOT_TERM: u64 = 2;
 impl Driver {
     pub fn new(seed: u64, profile: Profile, trace_cap: usize) -> Driver {
         let mut rng = Rng::new(seed ^ 0xA5A5_5A5A_1234_8765);
-        let knobs = draw_knobs(&mut rng, profile);
+        let mut knobs = draw_knobs(&mut rng, profile);
         let shape = draw_shape(&mut rng, profile);
+        // Known finding F4 (a term-0 node that outranks a pre-candidate panics when it
+        // rejects the pre-vote) ends an execution within a few dozen steps; keep that
+        // configuration reachable but rare so that it does not eat the workload.
+        if knobs.priorities && knobs.pre_vote && shape.boot == 0 && !rng.chance(1, 8) {
+            knobs.priorities = false;
+        }
         raft::verif_export::verif_timeout::seed(Some(seed.wrapping_mul(0x9E3779B97F4A7C15) | 1));
 
         let mut cs = ConfState::default();
@@ -616,7 +627,17 @@ impl Driver {
                         break;
                     }
                 }
-                Action::Pipe(found?)
+                match found {
+                    Some(v) => Action::Pipe(v),
+                    None => {
+                        // nothing to do anywhere: now and then ask for a Ready anyway (it must be empty)
+                        if self.rng.chance(1, 4) {
+                            Action::PipeForce(self.pick_up_idle()?)
+                        } else {
+                            return None;
+                        }
+                    }
+                }
             }
             K_PERSIST => {
                 let start = r.usize(n);
@@ -965,6 +986,11 @@ impl Driver {
 /// One execution: alternating chaos and (for now unjudged) drain phases.
 pub fn run_exec(seed: u64, profile: Profile, actions: usize, trace_cap: usize) -> ExecResult {
     let mut d = Driver::new(seed, profile, trace_cap);
+    if profile == Profile::Lockstep {
+        let windows = 1 + actions / 600;
+        crate::sim::lockstep::run_windows(&mut d, windows);
+        return d.finish(seed);
+    }
     let mut left = actions;
     while left > 0 && !d.sim.aborted {
         let chunk = (80 + d.rng.usize(400)).min(left);
